@@ -278,6 +278,27 @@ theorem delivered_eq (ρ : TopicMap → TopicMap) (hρ : ∀ l, (ρ l).Perm l) (
   · simp [hid]
 
 
+/-! ### makeAssignments -/
+
+theorem mapGet_foldInsert (f : Nat → List Int) (t : Nat) : ∀ (topics : List Nat) (acc : TopicMap),
+    mapGet t (topics.foldl (fun acc x => mapInsert x (f x) acc) acc) = if t ∈ topics then some (f t) else mapGet t acc
+  | [], acc => by simp
+  | x :: xs, acc => by
+    rw [List.foldl_cons, mapGet_foldInsert f t xs, mapGet_insert]
+    by_cases h1 : t ∈ xs
+    · simp [h1]
+    · by_cases h2 : x = t
+      · subst h2; simp [h1]
+      · have : ¬ t = x := fun e => h2 e.symm
+        simp [h1, h2, this]
+
+/-- `Generation.Assignments[t]` is what was received for `t` if the member is configured with `t`, nothing otherwise -/
+theorem generationView_eq (ρ : TopicMap → TopicMap) (A : Assignments) (id : Nat) (topics : List Nat) (t : Nat) :
+    generationView ρ A id topics t = if t ∈ topics then (mapGet t (received ρ A id)).getD [] else [] := by
+  unfold generationView makeAssignments
+  rw [mapGet_foldInsert (fun x => (mapGet x (received ρ A id)).getD []) t topics []]
+  by_cases h : t ∈ topics <;> simp [h, mapGet_nil]
+
 /-! ### extractTopics / readPartitions -/
 section Topics
 open KV.GroupBalancer
